@@ -1,6 +1,8 @@
 # C01 -- results are sentences of the active grammar (history table invariant: consumer side)
 H = "harness/C01_fsg_search.c"
 GROUPS = [
+    dict(name="fsg_search_null_prop", harness="harness/C01_producer.c", enforce="fsg_search_null_prop", loop_contracts=True, loops=["null_prop.entries", "null_prop.arcs"], min_loop_steps=2,
+         replace=["fsg_history_n_entries", "fsg_history_entry_get", "fsg_model_arcs", "fsg_arciter_next", "fsg_arciter_get", "fsg_history_entry_add"], allow_no_body=["*"], min_postconditions=1, unwind=18),
     dict(name="fsg_search_find_exit", harness=H, enforce="fsg_search_find_exit", replace=["fsg_history_n_entries", "fsg_history_entry_get"],
          loop_contracts=True, loops=["find_exit.scan", "find_exit.best"], min_loop_steps=2, min_postconditions=5),
     dict(name="fsg_search_hyp_noexit", harness=H, enforce="fsg_search_hyp", defines=["VERIF_CASE_NO_EXIT"], min_postconditions=2,
@@ -10,7 +12,8 @@ GROUPS = [
 
 ENFORCED_ELSEWHERE = {}
 ASSUMPTIONS = [
-    "history table seen through the ghost-cell view (contracts/fsg_hist.ghost.h): fsg_history_entry_get / fsg_history_n_entries are ASSUMED contracts; the element invariant (only entry 0 has no link, pred < id, frames >= -1) is what the producer side establishes -- producer side (fsg_search_null_prop/word_trans/pnode_exit, fsg_history_entry_add/end_frame) is NOT yet under contract in this check",
+    "history table seen through the ghost-cell view (contracts/fsg_hist.ghost.h, producer side contracts/fsg_hist_prod.ghost.h): fsg_history_entry_get / fsg_history_n_entries are ASSUMED contracts; the element invariant (only entry 0 has no link, pred < id, frames >= -1, link.from_state == dest(entry(pred))) is what the producer side establishes. Producer side under contract: fsg_search_null_prop (the invariant is the precondition of fsg_history_entry_add, proved at its call site). NOT under contract: fsg_search_word_trans / pnode_trans / pnode_exit (word arcs through the lextree), fsg_history_entry_add / end_frame bodies",
+    "arc iterator fsg_model_arcs / fsg_arciter_next / fsg_arciter_get: assumed contracts (yield links leaving the requested state, destination in range)",
     "ghost-cell soundness condition: the caller never reads through an entry pointer older than the most recent accessor call (true by inspection of find_exit/hyp)",
     "err_msg (logging) has no effect on program state",
     "case selection VERIF_CASE_NO_EXIT: for the 'no hypothesis' clause of fsg_search_hyp the replaced fsg_search_find_exit is restricted to the outcomes <= 0 that its own contract allows",
@@ -19,8 +22,8 @@ ASSUMPTIONS = [
 HAND_LEMMAS = [
     "by induction on the entry id, with the element invariant link.from_state == dest(entry(pred)) the backtrace from any entry is the label sequence of a grammar path leaving the start state; with find_exit's postcondition (final ==> to_state == final_state) it is a sentence",
 ]
-NOT_COVERED = ["producer side of the history invariant (search transitions, lextree construction)", "fsg_search_hyp string building and fsg_search_seg_iter backtrace loops (only their no-exit clause is under contract)", "decoder.c dispatch", "fsg_model_add_alt / grammar augmentation (the grammar the search runs on is taken as given)"]
+NOT_COVERED = ["word-arc producers of the history invariant (fsg_search_word_trans / pnode_trans / pnode_exit, lextree construction)", "fsg_search_hyp string building and fsg_search_seg_iter backtrace loops (only their no-exit clause is under contract)", "decoder.c dispatch", "fsg_model_add_alt / grammar augmentation (the grammar the search runs on is taken as given)"]
 CLAIM = dict(
-    text="Consumer side of 'results are sentences of the grammar': fsg_search_find_exit is proved, with loop invariants and termination, for history tables of any length: the entry it returns has a link, ends no later than the requested frame, carries the reported score and -- for a final result -- enters the grammar's final state; otherwise it returns <= 0. fsg_search_hyp is proved to return NULL and change nothing whenever no admissible exit exists. The path-connectivity invariant of the table itself (producer side) is assumed, not proved.",
+    text="Consumer side of 'results are sentences of the grammar': fsg_search_find_exit is proved, with loop invariants and termination, for history tables of any length: the entry it returns has a link, ends no later than the requested frame, carries the reported score and -- for a final result -- enters the grammar's final state; otherwise it returns <= 0. fsg_search_hyp is proved to return NULL and change nothing whenever no admissible exit exists. Producer side: fsg_search_null_prop is proved (two nested loop contracts, termination of the outer loop) to add only entries whose link leaves the state its predecessor entered, with the predecessor's frame and a null label -- the path-connectivity invariant as a precondition of fsg_history_entry_add. The word-arc producers (lextree transitions and exits) are NOT under contract, so for them the invariant is assumed.",
     note="assumed: ghost-cell view of the history table and its element invariant (producer side not under contract), err_msg; not covered: hypothesis string building, lextree, decoder dispatch; trusted: CBMC 6.11",
     technique="CBMC function + loop contracts enforced with goto-instrument --dfcc; universals via a ghost witness index; unbounded table via ghost cell")
